@@ -349,7 +349,7 @@ class Report:
 
 # Modules that hold only proof obligations about numbers/shapes extracted from the source (T1). The driver does not
 # import them, so a source change that breaks one of them breaks only the property that owns it.
-OBLIGATION_MODULES = {"VersionThm": "C15", "ArgsGen": "C11", "Limits": "C12", "DetGen": "C13", "OptGen": "C07", "CmapGen": "C17"}
+OBLIGATION_MODULES = {"VersionThm": "C15", "ArgsGen": "C11", "Limits": "C12", "DetGen": "C13", "OptGen": "C07", "CmapGen": "C17", "WritesGen": "C12"}
 
 
 def lean_modules(pid):
@@ -366,7 +366,7 @@ def lean_modules(pid):
     return sorted(mods)
 
 
-def lean_gate(report, theorems, uses_tables=False, uses_args=False, uses_det=False, uses_opt=False, uses_cmap=False):
+def lean_gate(report, theorems, uses_tables=False, uses_args=False, uses_det=False, uses_opt=False, uses_cmap=False, uses_writes=False):
     """Common proof gate: regenerate tables from the source (T1), forbid sorry etc., lake build, audit axioms.
     Returns True if the proof side is intact. Records violations (no-failing-input-found) otherwise."""
     import extract_tables
@@ -422,6 +422,17 @@ def lean_gate(report, theorems, uses_tables=False, uses_args=False, uses_det=Fal
         report.coverage["cmap_consts_regenerated_from_source"] = False
         if uses_cmap:
             report.violation("extract-cmap", {"broken": "T1 extraction of the cmap lookups from TtfUtil.cpp/GrcFont.cpp failed: %s" % e},
+                             no_failing_input=True)
+    import extract_writes
+    try:
+        with Lock(os.path.join(SCRATCH_ROOT, ".lake.lock")):
+            report.write_census = extract_writes.main()
+        report.coverage["write_census_regenerated_from_source"] = True
+    except extract_tables.ExtractError as e:
+        report.write_census = None
+        report.coverage["write_census_regenerated_from_source"] = False
+        if uses_writes:
+            report.violation("extract-writes", {"broken": "T1 census of the narrowing writes of OutputToFont.cpp failed: %s" % e},
                              no_failing_input=True)
     hits = lean_grep_forbidden()
     mods = lean_modules(report.pid)
